@@ -15,16 +15,27 @@ use std::time::{Duration, Instant};
 #[derive(Clone, Debug, Serialize, Deserialize)]
 pub struct Case {
     /// 0: two checkpoints (different files), 1: two checkpoints (same file, two sessions),
-    /// 2: three checkpoints, 3: checkpoint || commit, 4: commit in worktree || rebase in another
+    /// 2: three checkpoints, 3: checkpoint || commit, 4: commit in worktree || rebase in another,
+    /// 5: free-running stress - six checkpoints on six files with no controller at all,
+    /// 6: free-running stress - three checkpoints and a commit,
+    /// 7: a checkpoint of one file || a wrapped commit of another file (`commit -- a.txt`)
     pub scenario: u8,
     /// at each decision point: index into the list of parked processes
     pub schedule: Vec<u8>,
+    /// context-switch-bounded schedule `[first, k0, k1]`: release process `first` k0 times,
+    /// then the other process k1 times (255 = until it exits), then `first` to the end, then
+    /// the rest; when present it overrides `schedule` (two-process scenarios)
+    #[serde(default)]
+    pub plan: Option<[u8; 3]>,
 }
 
-pub const N_SCENARIOS: u8 = 5;
+pub const N_SCENARIOS: u8 = 8;
+const FILES6: [&str; 6] = ["a.txt", "b.txt", "c.txt", "d.txt", "e.txt", "f.txt"];
+const TAGS6: [&str; 6] = ["p0", "p1", "p2", "p3", "p4", "p5"];
 
 pub fn strategy() -> impl Strategy<Value = Case> {
-    (0u8..N_SCENARIOS, proptest::collection::vec(0u8..3, 4..12)).prop_map(|(scenario, schedule)| Case { scenario, schedule })
+    // scenarios 5 and 6 ignore the schedule: they are repeated free-running runs
+    (prop_oneof![5 => 0u8..5, 3 => Just(7u8), 1 => 5u8..7], proptest::collection::vec(0u8..3, 4..20)).prop_map(|(scenario, schedule)| Case { scenario, schedule, plan: None })
 }
 
 struct ProcSpec {
@@ -57,7 +68,7 @@ fn build(scenario: u8) -> Setup {
     let repo = sb.root.join("repo");
     std::fs::create_dir_all(&repo).unwrap();
     sb.real_git(&repo, &["init", "-q", "-b", "main", "."]);
-    for f in ["a.txt", "b.txt", "c.txt"] {
+    for f in FILES6 {
         std::fs::write(repo.join(f), format!("base one {f}\nbase two {f}\n")).unwrap();
     }
     sb.clock = 1;
@@ -103,6 +114,44 @@ fn build(scenario: u8) -> Setup {
                     args: vec!["checkpoint".into(), "agent-v1".into(), "--hook-input".into(), ck_payload(&repo, false, "a.txt", i)],
                 });
             }
+        }
+        5 => {
+            for i in 0..6 {
+                ai_edit(&mut sb, &repo, FILES6[i], i, &format!("agent {i} wrote this k{i}\n"), false);
+                procs.push(ProcSpec {
+                    tag: TAGS6[i],
+                    cwd: repo.clone(),
+                    wrapper: false,
+                    args: vec!["checkpoint".into(), "agent-v1".into(), "--hook-input".into(), ck_payload(&repo, false, FILES6[i], i)],
+                });
+            }
+        }
+        6 => {
+            ai_edit(&mut sb, &repo, "a.txt", 0, "agent 0 wrote this k0\n", true);
+            for i in 1..4 {
+                ai_edit(&mut sb, &repo, FILES6[i], i, &format!("agent {i} wrote this k{i}\n"), false);
+            }
+            procs.push(ProcSpec { tag: "p0", cwd: repo.clone(), wrapper: true, args: vec!["commit".into(), "-q".into(), "-m".into(), "concurrent commit".into(), "--".into(), "a.txt".into()] });
+            for i in 1..4 {
+                procs.push(ProcSpec {
+                    tag: TAGS6[i],
+                    cwd: repo.clone(),
+                    wrapper: false,
+                    args: vec!["checkpoint".into(), "agent-v1".into(), "--hook-input".into(), ck_payload(&repo, false, FILES6[i], i)],
+                });
+            }
+        }
+        7 => {
+            // checkpointed AI work in a.txt is committed by path while another agent reports b.txt
+            ai_edit(&mut sb, &repo, "a.txt", 0, "agent 0 wrote this k0\n", true);
+            ai_edit(&mut sb, &repo, "b.txt", 1, "agent 1 wrote this k1\n", false);
+            procs.push(ProcSpec { tag: "p0", cwd: repo.clone(), wrapper: true, args: vec!["commit".into(), "-q".into(), "-m".into(), "commit of one path".into(), "--".into(), "a.txt".into()] });
+            procs.push(ProcSpec {
+                tag: "p1",
+                cwd: repo.clone(),
+                wrapper: false,
+                args: vec!["checkpoint".into(), "agent-v1".into(), "--hook-input".into(), ck_payload(&repo, false, "b.txt", 1)],
+            });
         }
         3 => {
             // committed-so-far AI work in a.txt (checkpointed), un-checkpointed agent work in b.txt
@@ -159,7 +208,7 @@ fn spawn(sb: &Sandbox, p: &ProcSpec, sync_dir: Option<&Path>) -> Child {
     cmd.env("GITAI_TEST_DB_PATH", sb.root.join("db"));
     cmd.env("GIT_AI_TEST_METRICS_DB_PATH", sb.root.join("metrics-db"));
     // distinct pinned dates per process so that results do not depend on the wall clock
-    let t = crate::sandbox::EPOCH0 + 100 + if p.tag == "p0" { 0 } else if p.tag == "p1" { 1 } else { 2 };
+    let t = crate::sandbox::EPOCH0 + 100 + TAGS6.iter().position(|t| *t == p.tag).unwrap_or(0) as u64;
     cmd.env("GIT_AUTHOR_DATE", format!("@{t} +0000"));
     cmd.env("GIT_COMMITTER_DATE", format!("@{t} +0000"));
     if let Some(d) = sync_dir {
@@ -215,7 +264,7 @@ fn finish(s: &mut Setup) -> Outcome {
         }
     }
     for d in &dirs {
-        for f in ["a.txt", "b.txt", "c.txt"] {
+        for f in FILES6 {
             let r = s.sb.git_ai(d, &["blame", "--json", f]);
             let v = crate::world::parse_blame_json(&r);
             if v.raw_ok {
@@ -250,8 +299,28 @@ fn run_serial(scenario: u8, order: &[usize]) -> Outcome {
 
 /// Run the processes concurrently under `schedule`. Returns the outcome, the trace of
 /// released points and whether read/write windows really overlapped.
-fn run_concurrent(scenario: u8, schedule: &[u8]) -> (Outcome, Vec<String>, bool) {
+fn run_concurrent(scenario: u8, schedule: &[u8], plan: Option<[u8; 3]>) -> (Outcome, Vec<String>, bool) {
     let mut s = build(scenario);
+    if matches!(scenario % N_SCENARIOS, 5 | 6) {
+        // no controller: all processes at once, as an agent swarm would start them
+        let mut cs: Vec<Child> = s.procs.iter().map(|p| spawn(&s.sb, p, None)).collect();
+        let deadline = Instant::now() + Duration::from_secs(90);
+        for c in cs.iter_mut() {
+            loop {
+                match c.try_wait() {
+                    Ok(Some(_)) => break,
+                    _ if Instant::now() > deadline => {
+                        let _ = c.kill();
+                        crate::sandbox::mark_inconclusive("C11 stress: a process did not finish");
+                        break;
+                    }
+                    _ => std::thread::sleep(Duration::from_millis(3)),
+                }
+            }
+        }
+        let o = finish(&mut s);
+        return (o, vec!["free-running".into()], true);
+    }
     let sync = s.sb.root.join("sync");
     std::fs::create_dir_all(&sync).unwrap();
     let mut children: Vec<(usize, Child, bool)> = Vec::new();
@@ -264,7 +333,7 @@ fn run_concurrent(scenario: u8, schedule: &[u8]) -> (Outcome, Vec<String>, bool)
     let deadline = Instant::now() + Duration::from_secs(60);
     loop {
         // wait until every live process is parked or has exited (or seems blocked)
-        let settle_until = Instant::now() + Duration::from_millis(1500);
+        let settle_until = Instant::now() + Duration::from_millis(700);
         let mut parked: Vec<String>;
         loop {
             for c in children.iter_mut() {
@@ -305,30 +374,45 @@ fn run_concurrent(scenario: u8, schedule: &[u8]) -> (Outcome, Vec<String>, bool)
             std::thread::sleep(Duration::from_millis(5));
             continue;
         }
-        // one parked point per process at most; choose by schedule
-        let choice = schedule.get(step).cloned().unwrap_or(0) as usize % parked.len();
+        // one parked point per process at most; choose by plan or schedule
+        let choice = match plan {
+            Some([first, k0, k1]) => {
+                let tag_first = TAGS6[first as usize % 2];
+                let tag_other = TAGS6[(first as usize + 1) % 2];
+                let count = |tag: &str| trace.iter().filter(|t| t.starts_with(&format!("{tag}."))).count();
+                let live = |tag: &str| children.iter().any(|c| !c.2 && s.procs[c.0].tag == tag);
+                let want = if count(tag_first) < k0 as usize && live(tag_first) {
+                    tag_first
+                } else if (k1 == 255 || count(tag_other) < k1 as usize) && live(tag_other) {
+                    tag_other
+                } else if live(tag_first) {
+                    tag_first
+                } else {
+                    tag_other
+                };
+                parked.iter().position(|p| p.starts_with(&format!("{want}."))).unwrap_or(0)
+            }
+            None => schedule.get(step).cloned().unwrap_or(0) as usize % parked.len(),
+        };
         step += 1;
         let pick = parked[choice].clone();
         let _ = std::fs::write(sync.join(format!("{pick}.go")), b"");
         released.insert(pick.clone());
         trace.push(pick);
     }
-    // overlap: some process passed a read point before another passed its write point
+    // overlap: some process passed a read-type point, and before it passed its last
+    // write-type point another process was released
     let mut overlap = false;
-    let pos = |needle: &str, tag: &str| trace.iter().position(|t| t.starts_with(&format!("{tag}.")) && t.ends_with(needle));
     let tags: Vec<&str> = s.procs.iter().map(|p| p.tag).collect();
+    let is_read = |t: &str| t.ends_with(".read") || t.ends_with("notes.batch.read");
+    let is_write = |t: &str| t.ends_with(".write") || t.ends_with("notes.add") || t.ends_with(".delete") || t.ends_with(".reset") || t.ends_with(".rename");
     for a in &tags {
-        for b in &tags {
-            if a == b {
-                continue;
-            }
-            for (r, w) in [("checkpoints.read", "checkpoints.write"), ("notes.batch.read", "notes.add"), ("notes.batch.read", "notes.batch.write")] {
-                // a reads, then b reads or writes before a writes
-                if let (Some(ra), Some(wa)) = (pos(r, a), trace.iter().rposition(|t| t.starts_with(&format!("{a}.")) && (t.ends_with(w) || t.ends_with("checkpoints.write") || t.ends_with("notes.batch.write")))) {
-                    if trace.iter().enumerate().any(|(i, t)| i > ra && i < wa && t.starts_with(&format!("{b}."))) {
-                        overlap = true;
-                    }
-                }
+        let pa = format!("{a}.");
+        let first_read = trace.iter().position(|t| t.starts_with(&pa) && is_read(t));
+        let last_write = trace.iter().rposition(|t| t.starts_with(&pa) && is_write(t));
+        if let (Some(r), Some(w)) = (first_read, last_write) {
+            if trace.iter().enumerate().any(|(i, t)| i > r && i < w && !t.starts_with(&pa)) {
+                overlap = true;
             }
         }
     }
@@ -342,23 +426,22 @@ pub fn run(case: &Case) -> CaseReport {
     let nprocs = build(sc).procs.len();
     rep.class(format!("scenario:{sc}"));
     // serial reference outcomes: every order
-    let orders: Vec<Vec<usize>> = match nprocs {
-        2 => vec![vec![0, 1], vec![1, 0]],
-        _ => vec![vec![0, 1, 2], vec![0, 2, 1], vec![1, 0, 2], vec![1, 2, 0], vec![2, 0, 1], vec![2, 1, 0]],
-    };
-    let serial: Vec<Outcome> = orders.iter().map(|o| run_serial(sc, o)).collect();
+    let serial: Vec<Outcome> = serial_outcomes(sc, nprocs);
     for o in &serial {
         if !o.unparseable.is_empty() {
             rep.violate("C11:serial-run-left-unparseable-state", format!("{:?}", o.unparseable));
             return rep;
         }
     }
-    let (conc, trace, overlap) = run_concurrent(sc, &case.schedule);
+    let (conc, trace, overlap) = run_concurrent(sc, &case.schedule, case.plan);
     rep.nontrivial = overlap;
     if overlap {
         rep.class("overlapping-read-modify-write-windows");
     }
     rep.count("sync_points_released", trace.len() as u64);
+    if std::env::var_os("GAIV_C11_TRACE").is_some() {
+        eprintln!("C11 trace scenario {sc} schedule {:?} plan {:?}: {:?}", case.schedule, case.plan, trace);
+    }
     if !conc.unparseable.is_empty() {
         rep.violate("C11:journal-or-note-unparseable-after-concurrent-run", format!("schedule {:?}: {:?}", trace, conc.unparseable));
     }
@@ -397,10 +480,38 @@ pub fn run(case: &Case) -> CaseReport {
                 diffs.push(format!("note {} exists only after the concurrent run", &k[..8]));
             }
         }
+        // F39: a checkpoint racing a commit in the same worktree resolves its base commit
+        // before the commit finishes and then writes into the working log the commit has
+        // already consumed (or has its journal entry overwritten by post-commit's own
+        // read-modify-write). Signature: a commit ran concurrently in the same worktree and
+        // the ONLY difference from a serial outcome is that lines of the files reported by
+        // the concurrent checkpoints are missing.
+        let ck_files: &[&str] = match sc {
+            3 | 7 => &["b.txt"],
+            6 => &["b.txt", "c.txt", "d.txt"],
+            _ => &[],
+        };
+        let only_checkpoint_loss = !ck_files.is_empty()
+            && conc.unparseable.is_empty()
+            && best.blames.iter().all(|(k, v)| {
+                let c = conc.blames.get(k);
+                c == Some(v)
+                    || (ck_files.iter().any(|f| k.ends_with(&format!(":{f}")))
+                        && c.map(|c| c.iter().all(|(l, h)| v.get(l) == Some(h))).unwrap_or(false))
+            })
+            && conc.blames.keys().all(|k| best.blames.contains_key(k))
+            && best.notes.iter().all(|(k, v)| {
+                let empty = BTreeSet::new();
+                let c = conc.notes.get(k).unwrap_or(&empty);
+                c.is_subset(v) && v.difference(c).all(|(f, _, _)| ck_files.contains(&f.as_str()))
+            })
+            && conc.notes.keys().all(|k| best.notes.contains_key(k));
         let journal = trace.iter().any(|t| t.contains("checkpoints."));
         let notes_race = trace.iter().any(|t| t.contains("notes.batch"));
         rep.violate(
-            if notes_race && sc == 4 {
+            if only_checkpoint_loss {
+                "C11:checkpoint-racing-a-commit-in-the-same-worktree-is-lost"
+            } else if notes_race && sc == 4 {
                 "C11:notes-batch-writer-races-with-notes-add"
             } else if journal {
                 "C11:concurrent-checkpoint-lost-unlocked-journal-update"
@@ -413,6 +524,36 @@ pub fn run(case: &Case) -> CaseReport {
         rep.judged_strict += 1;
     }
     rep
+}
+
+fn permutations(n: usize) -> Vec<Vec<usize>> {
+    if n == 1 {
+        return vec![vec![0]];
+    }
+    let mut out = Vec::new();
+    for p in permutations(n - 1) {
+        for i in 0..n {
+            let mut q = p.clone();
+            q.insert(i, n - 1);
+            out.push(q);
+        }
+    }
+    out
+}
+
+/// Serial reference outcomes of a scenario (every order; for the six-independent-files
+/// stress scenario identity and reverse order). Deterministic, hence computed once per run.
+fn serial_outcomes(sc: u8, nprocs: usize) -> Vec<Outcome> {
+    static CACHE: std::sync::Mutex<BTreeMap<u8, Vec<Outcome>>> = std::sync::Mutex::new(BTreeMap::new());
+    if let Some(v) = CACHE.lock().unwrap().get(&sc) {
+        return v.clone();
+    }
+    let orders: Vec<Vec<usize>> = if sc == 5 { vec![(0..nprocs).collect(), (0..nprocs).rev().collect()] } else { permutations(nprocs) };
+    let mut v: Vec<Outcome> = orders.iter().map(|o| run_serial(sc, o)).collect();
+    v.sort();
+    v.dedup();
+    CACHE.lock().unwrap().insert(sc, v.clone());
+    v
 }
 
 fn all_schedules(len: usize, width: u8) -> Vec<Vec<u8>> {
@@ -432,24 +573,36 @@ fn all_schedules(len: usize, width: u8) -> Vec<Vec<u8>> {
 }
 
 pub fn spec_for(tier: Tier) -> Spec<Case> {
-    // exhaustive part: every schedule of the two-process scenarios over the instrumented points
+    // systematic part: every schedule with at most two context switches of the two-process
+    // scenarios over the instrumented points (run `first` for k0 points, the other for k1
+    // points or to its end, then `first` to its end), k0/k1 ranging over the points each
+    // process actually has (counted by one free pass)
     let mut fixed = Vec::new();
-    for sc in [0u8, 1] {
-        for s in all_schedules(4, 2) {
-            fixed.push(Case { scenario: sc, schedule: s });
-        }
-    }
-    if tier == Tier::Thorough {
-        for sc in [3u8, 4] {
-            for s in all_schedules(6, 2) {
-                fixed.push(Case { scenario: sc, schedule: s });
+    let quick = tier == Tier::Quick;
+    let scen: &[(u8, &[u8])] = if quick { &[(0, &[0]), (1, &[0]), (7, &[0, 1])] } else { &[(0, &[0, 1]), (1, &[0, 1]), (7, &[0, 1]), (3, &[0, 1]), (4, &[0, 1])] };
+    for (sc, firsts) in scen {
+        let (_, tr, _) = run_concurrent(*sc, &[], Some([0, 255, 255]));
+        let n = |tag: &str| tr.iter().filter(|t| t.starts_with(&format!("{tag}."))).count() as u8;
+        let counts = [n("p0"), n("p1")];
+        for first in firsts.iter() {
+            let (nf, no) = (counts[*first as usize], counts[1 - *first as usize]);
+            for k0 in 1..=nf {
+                let mut k1s: Vec<u8> = vec![255];
+                k1s.extend((1..=no).filter(|k| !quick || k % 2 == 1));
+                for k1 in k1s {
+                    fixed.push(Case { scenario: *sc, schedule: vec![], plan: Some([*first, k0, k1]) });
+                }
             }
         }
+    }
+    // free-running repetitions (the net under everything the sync points do not reach)
+    for i in 0..(if tier == Tier::Thorough { 200u8 } else { 12 }) {
+        fixed.push(Case { scenario: 5 + i % 2, schedule: vec![i], plan: None });
     }
     Spec {
         id: "C11",
         level: "exploration",
-        rule: "scenarios x schedules. Scenarios: two concurrent agent checkpoints in one worktree (different files; same file, two sessions), three concurrent checkpoints, a checkpoint concurrent with a wrapped commit, a wrapped commit in one linked worktree concurrent with a rebase completing in another (batch notes writer vs `notes add`). Each process parks at the guarded sync points (before the read and before the write of the checkpoint journal and the rewrite log, before every notes update); the controller releases one parked process at a time following the generated schedule - all 16 choice sequences for the two-process checkpoint scenarios are enumerated in every run (and all 64 for the commit/rebase scenarios in the thorough tier), three-process and mixed scenarios are sampled by proptest. Oracle: the same processes run to completion one after another in every order from identical initial states; the concurrent outcome (attestation set of every note, blame of every file in every worktree after a final commit of everything, parseability of every journal line and note) must equal one of the serial outcomes. non-trivial = a process passed a read point before another passed its write point (overlapping read-modify-write windows); distinct by case hash".into(),
+        rule: "scenarios x schedules. Scenarios: two concurrent agent checkpoints in one worktree (different files; same file, two sessions), three concurrent checkpoints, a checkpoint concurrent with a wrapped commit (-a, and by path so that the reported file is not part of the commit), a wrapped commit in one linked worktree concurrent with a rebase completing in another (batch notes writer vs `notes add`), plus two free-running scenarios without any controller (six checkpoints on six files; three checkpoints and a commit). Each controlled process parks at the guarded sync points - before every read and write of checkpoints.jsonl and INITIAL at the storage-primitive level (so a refactor that moves the read out of the locked section is still scheduled), around the journal read-modify-write, around the rewrite log, before every notes update and before working-log delete/rename/reset; the controller releases one parked process at a time. Systematic part: for the two-process scenarios every schedule with at most two context switches (run A for k0 points, B for k1 points or to its end, A to its end, B to its end; k0, k1 over the points each process really has; both start orders where asymmetric) - half of the k1 values in the quick tier, all in thorough; sampled part: proptest-generated choice sequences incl. the three-process scenario; free-running repetitions (12 quick / 200 thorough). Oracle: the same processes run to completion one after another in every order from identical initial states (computed once per scenario); the concurrent outcome (attestation set of every note, blame of every file in every worktree after a final commit of everything, parseability of every journal line and note) must equal one of the serial outcomes. non-trivial = a process passed a read point and another process was released before its last write point (overlapping read-modify-write windows) or a free-running run; distinct by case hash".into(),
         cases_quick: 28,
         cases_thorough: 400,
         shrink_iters: 30,
